@@ -12,6 +12,16 @@ package congestion
 //   * for the pacer parts: one record per authorised send = start of an interval, with the
 //     bytes authorised since, the largest bandwidth estimate and datagram size seen since.
 //
+// Start states: a fresh sender with a shrunk initial window; in the "floor" parts the first
+// event of every history is a "start" choice = a fresh sender with one of several initial
+// windows that has already gone through k separate loss episodes (k times: one full-size
+// packet sent and reported lost, 100 ms apart - every episode is executed on the real code
+// and judged by the same oracle), so that the window sits at, or within one loss reduction
+// of, the two-packet floor, in congestion avoidance, with a cutback already on record.
+// Flights: "fill(class)" = an obedient sender sends packets of one size class for as long
+// as CanSend(bytes in flight) allows, so that several packets of one window of packets are
+// outstanding when losses and acknowledgements of that flight are interleaved.
+//
 // Oracle, evaluated after every event (only what the statement says):
 //   B  2*mds <= cwnd <= 10000*mds + mds
 //   A  an acknowledgement never makes cwnd smaller
@@ -161,9 +171,11 @@ type c20Cfg struct {
 	initPkts  protocol.ByteCount // initial window in packets
 	belowMax  protocol.ByteCount // if > 0: initial window = configured maximum - belowMax packets
 	depth     int
-	sizes     []int                // send size classes: 0 full, 1 half, 2 one byte, 3 full-1
+	sizes     []int                // send size classes: 0 full, 1 half, 2 one byte, 3 full-1, 5 quarter
 	nonRetr   bool                 // also send non-retransmittable (pure ACK) packets of 40 bytes
 	fill      bool                 // "fill": full-size packets until the window is used up
+	fillSizes []int                // "fill(class)": packets of this size class for as long as CanSend allows (one flight)
+	starts    []c20Start           // if set: the first event of a history chooses the start state
 	burst     bool                 // "burst": full-size packets back to back for as long as the pacer authorises them
 	paced     int                  // "paced": this many times { wait until TimeUntilSend; send a full-size packet if authorised }
 	early     int                  // "early": this many times { advance to the earliest instant at which HasPacingBudget is true; send a full-size packet }
@@ -181,6 +193,13 @@ type c20Cfg struct {
 	huge      bool // one 2^62 ns clock step per history
 	advPace   bool // advance the clock exactly to TimeUntilSend
 	pacer     bool // evaluate the pacer clause (keeps the send history in the state)
+}
+
+// c20Start is a start state: a fresh sender with an initial window of pkts packets that has
+// gone through `losses` separate loss episodes (send one full-size packet, report it lost).
+type c20Start struct {
+	pkts   protocol.ByteCount
+	losses int
 }
 
 type c20Rec struct {
@@ -205,6 +224,7 @@ type c20Inst struct {
 	rtoN      int
 	rttN      int
 	hugeUsed  bool
+	started   bool // a start state was chosen (parts with cfg.starts only)
 	burstDone bool          // no clock step since the last burst (a second burst would be empty)
 	minRTTAck time.Duration // MinRTT at the previous ack event
 	recs      []c20Rec
@@ -283,6 +303,8 @@ func (in *c20Inst) sizeOf(class int) protocol.ByteCount {
 		return 1
 	case 3:
 		return in.mds - 1
+	case 5:
+		return in.mds / 4
 	}
 	explore.Must(false, "size class %d", class)
 	return 0
@@ -291,6 +313,12 @@ func (in *c20Inst) sizeOf(class int) protocol.ByteCount {
 func (in *c20Inst) Ops() []explore.Op {
 	c := in.cfg
 	var ops []explore.Op
+	if len(c.starts) > 0 && !in.started {
+		for i := range c.starts {
+			ops = append(ops, explore.Op{N: "start", A: i})
+		}
+		return ops
+	}
 	for _, sz := range c.sizes {
 		ops = append(ops, explore.Op{N: "send", A: sz, B: 1})
 	}
@@ -306,8 +334,13 @@ func (in *c20Inst) Ops() []explore.Op {
 	if c.early > 0 && !in.hugeUsed {
 		ops = append(ops, explore.Op{N: "early"})
 	}
-	if c.fill && in.led.inflight < in.s.GetCongestionWindow() {
-		ops = append(ops, explore.Op{N: "fill"})
+	if in.s.CanSend(in.led.inflight) {
+		if c.fill {
+			ops = append(ops, explore.Op{N: "fill"})
+		}
+		for _, sz := range c.fillSizes {
+			ops = append(ops, explore.Op{N: "fill", A: sz})
+		}
 	}
 	for _, k := range c.acks {
 		if in.led.ackable(k, in.clk.now) {
@@ -595,15 +628,42 @@ func (in *c20Inst) Apply(op explore.Op) *explore.Fail {
 			n++
 		}
 		in.outcome = fmt.Sprintf("early n=%d moved=%v before-timer=%v", n, moved > 0, in.clk.now < in.s.TimeUntilSend(in.led.inflight))
-	case "fill":
-		n := 0
-		for in.led.inflight < in.s.GetCongestionWindow() {
+	case "start":
+		// start state: a fresh sender with the chosen initial window, taken through separate
+		// loss episodes (one flight of one packet each), every one judged like any other event
+		explore.Must(!in.started && c.startMTU == 0 && in.nextPN == 0, "start: not the first event")
+		st := c.starts[op.A]
+		in.started = true
+		in.s = newCubicSender(in.clk, in.rtt, &utils.ConnectionStats{}, c.reno, c20MDS0, st.pkts*c20MDS0, c20MaxPkts*c20MDS0, nil)
+		shrinks := 0
+		for i := 0; i < st.losses; i++ {
 			if _, f := in.sendOne(in.mds, true, false); f != nil {
+				return f
+			}
+			in.clk.now = in.clk.now.Add(100 * time.Millisecond)
+			pn, sz := in.led.oldest()
+			oc, f := in.loseOne(pn, sz, in.led.inflight)
+			if f != nil {
+				return f
+			}
+			if strings.Contains(oc, "shrink") {
+				shrinks++
+			}
+			if f := in.bounds(ev); f != nil {
+				return f
+			}
+		}
+		in.outcome = fmt.Sprintf("start%d shrinks=%d atfloor=%v %s", op.A, shrinks, in.s.GetCongestionWindow() == 2*in.mds, in.phase())
+	case "fill":
+		size := in.sizeOf(op.A)
+		n := 0
+		for in.s.CanSend(in.led.inflight) {
+			if _, f := in.sendOne(size, true, false); f != nil {
 				return f
 			}
 			n++
 		}
-		in.outcome = "fill"
+		in.outcome = fmt.Sprintf("fill class=%d many=%v", op.A, n > 3)
 	case "ack":
 		prior := in.led.inflight
 		var oc string
@@ -741,8 +801,8 @@ func (in *c20Inst) Key() string {
 		skip = c20SkipCCNoPacer
 	}
 	sb.WriteString(canon.Dump(in.s, canon.Options{TimeBase: base, SkipField: skip}))
-	fmt.Fprintf(&sb, "|pn=%d lr=%d hz=%d mds=%d mtu=%d rto=%d rtt=%d huge=%v bd=%v mra=%d|", in.nextPN, in.largestR, in.horizon,
-		in.mds, in.mtuN, in.rtoN, in.rttN, in.hugeUsed, in.burstDone, in.minRTTAck)
+	fmt.Fprintf(&sb, "|pn=%d lr=%d hz=%d mds=%d mtu=%d rto=%d rtt=%d huge=%v bd=%v mra=%d st=%v|", in.nextPN, in.largestR, in.horizon,
+		in.mds, in.mtuN, in.rtoN, in.rttN, in.hugeUsed, in.burstDone, in.minRTTAck, in.started)
 	for _, r := range in.led.runs {
 		fmt.Fprintf(&sb, "%d+%dx%d@%d,", r.lo, r.n, r.size, int64(r.t)-base)
 	}
